@@ -365,6 +365,8 @@ class TaggedUnionConverter(UnionConverter):
         super().__init__(types, handlers=handlers)
         self.tag = tag
         self.external = external if isinstance(external, t.Sequence) else bool(external)
+        if isinstance(self.external, t.Sequence) and (isinstance(self.external, str) or len(self.external) != 2):
+            raise TypeError(f"'external' should be a bool or a pair (tag key, content key), not {external!r}")
 
         # look for tag in each of self.types
         self.tag_map = {}
